@@ -548,6 +548,30 @@ def pubsub_fwd(case, rp):
                 'satisfy the hop contract natively' % n)
 
 
+@builder('session.py:Session._crosswire_proxy')
+def crosswire_proxy(case, rp):
+    """the real Session._crosswire_proxy for both roles that may call it, with
+    crosswire_pubsub replaced by a recorder"""
+    from radical.pilot.session import Session
+    want = {('control_pubsub', 'proxy_control_pubsub', False), ('proxy_control_pubsub', 'control_pubsub', True),
+            ('state_pubsub', 'proxy_state_pubsub', False), ('proxy_state_pubsub', 'state_pubsub', True)}
+    for role in (Session._PRIMARY, Session._AGENT_0):
+        s = object.__new__(Session)
+        s._log, s._prof = Stub(), Stub()
+        s._role = role
+        got = []
+        s.crosswire_pubsub = lambda src, tgt, from_proxy: got.append((src, tgt, from_proxy))
+        try:
+            s._crosswire_proxy()
+        except Exception as e:
+            return dict(confirmed=True, detail='role %s: raised %r' % (role, e), input=dict(role=role))
+        if set(got) != want or len(got) != 4:
+            return dict(confirmed=True, input=dict(role=role),
+                        detail='role %s: forwarders set up: %s; missing %s, unexpected %s' % (
+                            role, got, sorted(want - set(got)), sorted(set(got) - want)))
+    return dict(confirmed=False, detail='both roles wire 4 forwarders natively')
+
+
 # ------------------------------------------------------------------------------
 # C19
 #
